@@ -16,11 +16,34 @@ import (
 	"context"
 	"fmt"
 	"os"
+	"strconv"
 	"strings"
 	"testing"
+	"time"
 
 	"github.com/spq/pkappa2/internal/query"
 )
+
+// verifC07Times replaces every @T<ns>@ by that instant in the syntax of the time filters, in the local time zone
+// of the process (the parser interprets dates in time.Local): "2006-01-02 150405+<rest>ns".
+func verifC07Times(q string) string {
+	for {
+		i := strings.Index(q, "@T")
+		if i < 0 {
+			return q
+		}
+		j := strings.Index(q[i+2:], "@")
+		if j < 0 {
+			return q
+		}
+		ns, err := strconv.ParseInt(q[i+2:i+2+j], 10, 64)
+		if err != nil {
+			return q
+		}
+		t := time.Unix(0, ns).Local()
+		q = q[:i] + fmt.Sprintf("%s+%dns", t.Format("2006-01-02 150405"), t.Nanosecond()) + q[i+2+j+1:]
+	}
+}
 
 func verifC07Search(w *bufio.Writer, stack string, rs []*Reader, queries []string) {
 	for qi, qtext := range queries {
@@ -30,7 +53,7 @@ func verifC07Search(w *bufio.Writer, stack string, rs []*Reader, queries []strin
 					fmt.Fprintf(w, "S %s %d PANIC %v\n", stack, qi, strings.ReplaceAll(fmt.Sprint(p), "\n", " "))
 				}
 			}()
-			q, err := query.Parse(qtext)
+			q, err := query.Parse(verifC07Times(qtext))
 			if err != nil {
 				fmt.Fprintf(w, "S %s %d parse-error\n", stack, qi)
 				return
